@@ -2,11 +2,14 @@
 package mgen
 
 import (
+	"sort"
 	"strings"
+	"sync"
 
 	"pgregory.net/rapid"
 
 	"verifharness/h"
+	"verifharness/hostile"
 	ref "verifharness/ref/bip39"
 )
 
@@ -101,4 +104,76 @@ func Mutate(t *rapid.T, words []string, l, other *ref.List) ([]string, string) {
 		words[p], words[q] = words[q], words[p]
 		return words, "swap"
 	}
+}
+
+// ---- impostor words: strings outside the list that collide with a list word under a short hash ----
+
+var (
+	impOnce sync.Map // lang -> *[][2]string
+)
+
+// Impostors returns pairs (impostor, word): impostor is not in the list but has the same 32-bit FNV-1a
+// or FNV-1 hash as word. Found by exhaustive search over short strings of the list's own characters
+// (6 letters for English, 4 kana for Japanese; the search stops at six finds per hash variant); computed once per process and list.
+func Impostors(l *ref.List, lang string) [][2]string {
+	if v, ok := impOnce.Load(lang); ok {
+		return *(v.(*[][2]string))
+	}
+	seen := map[rune]bool{}
+	var units []string
+	for _, w := range l.Words {
+		for _, r := range w {
+			if !seen[r] {
+				seen[r] = true
+				units = append(units, string(r))
+			}
+		}
+	}
+	sort.Strings(units)
+	k := 6
+	if len(units) > 40 {
+		k = 4
+	}
+	var out [][2]string
+	for _, a := range []bool{true, false} {
+		out = append(out, hostile.FNVCollisions(l.Words[:], units, k, a, 6)...)
+	}
+	impOnce.Store(lang, &out)
+	return out
+}
+
+// ImpostorSentence draws a sentence that would be valid if the impostor at one position were the list
+// word it collides with (checksum computed for that word); it is invalid: the impostor is not a word.
+func ImpostorSentence(t *rapid.T, l *ref.List, lang string) ([]string, bool) {
+	imps := Impostors(l, lang)
+	if len(imps) == 0 {
+		return nil, false
+	}
+	pair := imps[rapid.IntRange(0, len(imps)-1).Draw(t, "imp")]
+	n := 16 + 4*rapid.IntRange(0, 12).Draw(t, "n")
+	e := EntropyBytes(t, n)
+	p := rapid.IntRange(0, n*8/11-1).Draw(t, "ip") // a word whose 11 bits are all entropy bits
+	idx := l.Index[pair[1]]
+	for b := 0; b < 11; b++ { // write the word's index into entropy bits [11p, 11p+11)
+		bit := p*11 + b
+		if idx>>(10-b)&1 == 1 {
+			e[bit/8] |= 0x80 >> uint(bit%8)
+		} else {
+			e[bit/8] &^= 0x80 >> uint(bit%8)
+		}
+	}
+	words := ref.Encode(l, e)
+	if words[p] != pair[1] {
+		panic("ImpostorSentence: construction failed")
+	}
+	words[p] = pair[0]
+	return words, true
+}
+
+// KnownImpostors returns the impostor pairs already computed for lang (nil if none were needed yet).
+func KnownImpostors(lang string) [][2]string {
+	if v, ok := impOnce.Load(lang); ok {
+		return *(v.(*[][2]string))
+	}
+	return nil
 }
